@@ -136,6 +136,9 @@ inductive HOp where
   | cpy (i j : Nat)                 -- x[i] = x[j] / x.f_i = x.f_j  (an existing sub-view is assigned)
   | sets (i : Nat) (vs : List Val)  -- x[i:i+k] = vs
   | setf (i : Nat) (ft : Ty) (v : Val)  -- x[i] = <a view of type ft holding v>
+  | setsx (i k : Nat) (vs : List Val)   -- x[i:i+k] = vs with |vs| ≠ k allowed (the items are written in order, then the count is checked)
+  | setc (i : Nat) (v : Val)            -- x[i] = <a view of another, COERCIBLE type (other limit / other class, same layout) holding v>
+  | setv (i : Nat) (v : Val)            -- x[i] = <an already hashed container of another class with the same layout holding v>
   | seth (i : Nat) (v : Val)             -- x[i] = <an already HASHED view holding v (possibly of an alias subclass)>
   | refused                            -- an argument outside the model's domain that the API must refuse
                                        -- (a NEGATIVE union selector: `change(selector=-1, …)`)
@@ -145,6 +148,10 @@ def toHOp : Sexp → Option HOp
   | .list [.atom "sets", i, .list (.atom "s" :: vs)] => do pure (.sets (← atomNat i) (← toVals vs))
   | .list [.atom "setf", i, ft, v] => do pure (.setf (← atomNat i) (← toTy ft) (← toVal v))
   | .list [.atom "seth", i, v] => do pure (.seth (← atomNat i) (← toVal v))
+  | .list [.atom "setsx", i, k, .list (.atom "s" :: vs)] => do pure (.setsx (← atomNat i) (← atomNat k) (← toVals vs))
+  | .list [.atom "setc", i, _, v] => do pure (.setc (← atomNat i) (← toVal v))
+  | .list [.atom "setv", i, v] => do pure (.setv (← atomNat i) (← toVal v))
+  | .list [.atom "setn", _, _] => some .refused
   | .list [.atom "setb", i, .atom hx] => do
     -- a raw byte string assigned to an integer position: the little-endian number it denotes
     let bs ← unhexAux (hx.toList.drop 1)
@@ -196,6 +203,16 @@ def expandHOp (t : Ty) (v : Val) : HOp → Option (List Impl.Op × Nat)
     let ops := vs.zipIdx.map fun (x, k) => Impl.Op.set (i + k) x
     some (ops, (ops.map (costBound t)).sum)
   | .refused => none
+  | .setsx i _ vs =>
+    let ops := vs.zipIdx.map fun (x, k) => Impl.Op.set (i + k) x
+    some (ops, (ops.map (costBound t)).sum)
+  | .setc i x => some ([.set i x], costBound t (.set i x))
+  | .setv i x =>
+    -- only the path and the new container's own pair nodes are hashed: its field sub-trees are taken over
+    let skeleton := match elemTyAt t i with
+      | some (.container fs) => Spec.pow2ceil fs.length - 1
+      | _ => 0
+    some ([.set i x], Impl.treeDepth t + skeleton)
   | .seth i x =>
     -- the inserted sub-value is hashed already: only the path to it is re-hashed
     some ([.set i x], Impl.treeDepth t)
@@ -214,14 +231,25 @@ def runHist (t : Ty) (v0 : Val) (ops : List HOp) : String :=
     | hop :: rest =>
       let expanded := expandHOp t v hop
       -- apply the sub-operations in order; all must succeed for the step to succeed
-      let (sv, inn) : Option Val × Option Node :=
+      -- slice assignments write item by item: a failing item keeps the earlier ones; a surplus / shortage of items
+      -- is detected only afterwards ("failed to do full slice-set")
+      let isSlice := match hop with | .sets _ _ => true | .setsx _ _ _ => true | _ => false
+      let countOk := match hop with | .setsx _ k vs => vs.length == k | _ => true
+      let (sv, inn, v', n') : Option Val × Option Node × Val × Option Node :=
         match expanded with
-        | none => (none, none)
+        | none => (none, none, v, n)
         | some (subops, _) =>
-          subops.foldl (fun (acc : Option Val × Option Node) o =>
-            (acc.1.bind fun vv => Spec.applyOp t vv o, acc.2.bind fun nn => Impl.apply H t nn o)) (some v, n)
-      let v' := sv.getD v
-      let n' := match inn with | some x => some x | none => n
+          if isSlice then
+            let (cv, cn, ok) := subops.foldl (fun (acc : Val × Option Node × Bool) o =>
+              if !acc.2.2 then acc else
+              match Spec.applyOp t acc.1 o, acc.2.1.bind fun nn => Impl.apply H t nn o with
+              | some vv, some nn => (vv, some nn, true)
+              | _, _ => (acc.1, acc.2.1, false)) (v, n, true)
+            if ok && countOk then (some cv, cn, cv, cn) else (none, none, cv, cn)
+          else
+            let r := subops.foldl (fun (acc : Option Val × Option Node) o =>
+              (acc.1.bind fun vv => Spec.applyOp t vv o, acc.2.bind fun nn => Impl.apply H t nn o)) (some v, n)
+            (r.1, r.2, r.1.getD v, match r.2 with | some x => some x | none => n)
       let p := toString k
       let firstOp : Option Impl.Op := match expanded with | some (o :: _, _) => some o | _ => none
       let out := [
@@ -324,6 +352,16 @@ def runTreeCmd (n : Node) (k : Nat) (cmd : Sexp) : Option String :=
           (Virtual.setterM H src (.virt (n.root H)) g (e != 0) (Virtual.MNode.ofNode v)))
       | _ => none
     pure (kv (p ++ ".vseq") (String.intercalate "," outs))
+  | .list [.atom "vleaves"] =>
+    -- leaf iteration over the lazily served tree lists the same leaves
+    pure (kv (p ++ ".vleaves") (String.intercalate "," ((leafIter n).map fun l => hexOf (l.root H))))
+  | .list (.atom "vsumm" :: g :: probes) => do
+    -- summarize_into on the lazily served tree, then reads: as on the materialised tree
+    let g ← atomNat g
+    let probes ← probes.mapM atomNat
+    let r := summarizeInto H n g
+    let ps := probes.map fun q => optStr nodeStr (r.bind fun r => getter r q)
+    pure (join [kv (p ++ ".vsumm") (optStr nodeStr r), kv (p ++ ".vsprobes") (String.intercalate "," ps)])
   | .list [.atom "summ", g] => do
     let g ← atomNat g
     let r := summarizeInto H n g
@@ -532,6 +570,7 @@ inductive POp where
   | read | elem (i : Nat) | len | bytes | root | mut (op : HOp) | slice (a b : Nat) | nav (g : Nat)
   | sub (i : Nat) (op : HOp)   -- a mutation through the child view at key i (propagates into this view)
   | vbl                        -- value_byte_length()
+  | eqself                     -- view == view.copy()  (a comparison of roots)
   | fork                       -- keep another view of the current backing
   | fread (k : Nat)            -- read the whole value through the k-th kept view
 
@@ -542,6 +581,7 @@ def toPOp : Sexp → Option POp
   | .list [.atom "iter"] => some .read
   | .list [.atom "nav", g] => (atomNat g).map .nav
   | .list [.atom "vbl"] => some .vbl
+  | .list [.atom "eqself"] => some .eqself
   | .list [.atom "fork"] => some .fork
   | .list [.atom "fread", k] => (atomNat k).map .fread
   | .list [.atom "sub", i, op] => do pure (.sub (← atomNat i) (← toHOp op))
@@ -566,6 +606,7 @@ def stepPOp (t : Ty) (n : Node) (op : POp) (forks : List Node := []) : Node × S
   | .len => (n, okStr ((viewLen t n).map toString))
   | .nav g => (n, okStr ((getter n g).map fun m => hexOf (m.root H)))
   | .vbl => (n, okStr ((Impl.valueByteLength H t n).map toString))
+  | .eqself => (n, "ok:True")
   | .sub i ho =>
     let r : Option Node := do
       let (ct, cn) ← Impl.childOf H t n i
@@ -692,6 +733,9 @@ def runCase (xs : List Sexp) : Option String :=
     pure (runPath (← toTy t) none (← keys.mapM toKey))
   | .atom "pathv" :: t :: v :: keys => do
     if keys.any isNegAtom then pure (runPathInvalid keys.length) else
+    pure (runPath (← toTy t) (some (← toVal v)) (← keys.mapM toKey))
+  | .atom "pathm" :: t :: v :: keys => do
+    -- (the container's fields carry the names of view methods on the code side: positions are what counts)
     pure (runPath (← toTy t) (some (← toVal v)) (← keys.mapM toKey))
   | [.atom "tsize", t] => do pure (runTSize (← toTy t))
   | [.atom "uop", op, xw, xv, yw, yv] => do
